@@ -335,4 +335,4 @@ func verifC17HistoryAPI(steps int) {
 
 func VH_C17_history_api() { verifC17HistoryAPI(4) }
 
-func VH_C17_history_api_T() { verifC17HistoryAPI(6) }
+func VH_C17_history_api_T() { verifC17HistoryAPI(5) } // (6 steps exceed the path budget: 7^6 orders)
